@@ -27,12 +27,17 @@ def _bump(k, n=1):
 def install_probes():
     """Count rare writer conditions from outside by wrapping repo methods."""
     from neuroglancer_scripts import sharded_file_accessor as sfa
-    if getattr(sfa.MiniShard, "_verif_wrapped", False):
+    if getattr(getattr(sfa, "MiniShard", None), "_verif_wrapped", False):
         return
-    orig_flush = sfa.MiniShard.flush_buffer
-    orig_append = sfa.MiniShard.append
-    orig_close = sfa.MiniShard.close
-    orig_store = sfa.MiniShard.store_cmc_chunk
+    try:
+        orig_flush = sfa.MiniShard.flush_buffer
+        orig_append = sfa.MiniShard.append
+        orig_close = sfa.MiniShard.close
+        orig_store = sfa.MiniShard.store_cmc_chunk
+    except AttributeError:
+        # the writer was refactored: probes are best-effort instrumentation,
+        # the oracles do not depend on them
+        return
     state = {"in_flush": 0, "in_close": 0, "cascade": 0}
 
     def flush_buffer(self):
